@@ -182,7 +182,7 @@ pub fn info_c13() -> PropInfo {
     PropInfo {
         id: "C13",
         level: "exploration",
-        rule: "single-source projects whose last items enumerate every end-of-file state (text, blank line(s), text without final newline, each directive kind with outputs {none, x, x\\n, multi-line, stored in a tag}, tag use on the last line, empty file, directive followed by a tail line) x LF/CRLF, plus C01-generator sources without dependency includes; each built twice in the same directory with the option on and off (library flag; a sample through the CLI -n flag). Monitor: on == off, or on == off + exactly one line ending; a source ending in a text line must end with line+le (on) and without le (off); temp files identical. Non-trivial = the two outputs differ or the source ends in a directive; distinct = distinct sources.",
+        rule: "single-source projects whose last items enumerate every end-of-file state (text, blank line(s), text without final newline, each directive kind with outputs {none, x, x\\n, multi-line, stored in a tag}, tag use on the last line, empty file, directive followed by a tail line) x LF/CRLF, plus C01-generator sources without dependency includes; each built twice in the same directory with the option on and off (library flag; a sample through the CLI -n flag). Additional cases: the source is built only because a requested file names it in `after` (it must honour the option as well), and a needed-build with the other setting over an existing tree. Monitor: on == off, or on == off + exactly one line ending; a source ending in a text line must end with line+le (on) and without le (off); temp files identical. Non-trivial = the two outputs differ or the source ends in a directive; distinct = distinct sources.",
         assumptions: &["judged for sources whose directive results do not depend on the option (no include/cat of another .txtpp source's output), DESIGN §5 C13 domain note"],
         floor: (300, 3000),
         shards: (16, 16),
@@ -347,6 +347,50 @@ fn check_c13(ctx: &mut Ctx, files: &Files, seed_note: &str) {
     }
 }
 
+/// on/off differential for `watched` when only `inputs` are requested (it is reached as a dependency)
+fn check_c13_requested(ctx: &mut Ctx, files: &Files, inputs: &[String], watched: &str) {
+    let root = ctx.scratch.fresh();
+    let mut outs: Vec<(Option<Vec<u8>>, Verdict)> = vec![];
+    for trailing in [true, false] {
+        ctx.scratch.reuse(&root);
+        let mut c = ProjectCase::simple(files.clone());
+        c.trailing = trailing;
+        c.inputs = inputs.to_vec();
+        c.recursive = false;
+        c.requested = Some(vec![format!("{}.txtpp", inputs[0])]);
+        let res = run_project_at(ctx, &c, &root, false);
+        if res.expect.out_of_domain.is_some() {
+            ctx.scratch.discard(&root);
+            return;
+        }
+        outs.push((res.after.files.get(watched).map(|e| e.bytes.clone()), res.outcome.verdict.clone()));
+    }
+    ctx.scratch.discard(&root);
+    ctx.count("dependency_only_cases", 1);
+    if !(outs[0].1.is_ok() && outs[1].1.is_ok()) {
+        return;
+    }
+    let src = format!("{watched}.txtpp");
+    let text = String::from_utf8_lossy(&files[&src]).to_string();
+    let (ls, le) = model::split(&text);
+    let (a, b) = (outs[0].0.clone().unwrap_or_default(), outs[1].0.clone().unwrap_or_default());
+    let cj = json!({"files": crate::util::files_json(files), "inputs": inputs, "watched": watched});
+    let ok = a == b || (a.len() == b.len() + le.len() && a.starts_with(&b) && &a[b.len()..] == le.as_bytes());
+    if !ok {
+        ctx.violation("C13:dependency:more-than-final-line-ending", format!("{watched} (built as a dependency of {inputs:?}): on={} off={}", show(&a), show(&b)), cj.clone());
+    }
+    if let Ok(items) = model::parse(&ls) {
+        if matches!(items.last(), Some(model::Item::Text(_))) {
+            let mut want = b.clone();
+            want.extend_from_slice(le.as_bytes());
+            if a != want {
+                ctx.violation("C13:dependency:text-ending-source", format!("{watched} is built only as a dependency of {inputs:?} and ends with an ordinary text line, so on must equal off + one line ending: on={} off={}", show(&a), show(&b)), cj);
+            }
+            ctx.distinct.insert(crate::util::hash_files(files) ^ 0xdeb);
+        }
+    }
+}
+
 fn run_c13(ctx: &mut Ctx) {
     let mut r = StdRng::seed_from_u64(ctx.shard_seed());
     let n = ctx.tier.pick(1500, 12_000);
@@ -366,6 +410,18 @@ fn run_c13(ctx: &mut Ctx) {
         if i == 0 {
             ctx.sample(|| json!({"source": String::from_utf8_lossy(&files["e.txt.txtpp"])}));
         }
+    }
+    // a source that is built only as a dependency of the requested file must honour the option too
+    let ndep = ctx.tier.pick(40, 1500);
+    for i in 0..ndep {
+        if !ctx.time_left() {
+            break;
+        }
+        let mut files = crate::gen::static_files();
+        let dep_dir = ["", "sub/", "sub/deep/"][i % 3];
+        files.insert(format!("{dep_dir}d.txt.txtpp"), eof_source(&mut r).into_bytes());
+        files.insert("t.txt.txtpp".into(), format!("-TXTPP#after {dep_dir}d.txt\ntop line\n").into_bytes());
+        check_c13_requested(ctx, &files, &["t.txt".to_string()], &format!("{dep_dir}d.txt"));
     }
     // CLI -n mapping on a few sources
     let ncli = ctx.tier.pick(4, 60);
@@ -388,6 +444,11 @@ fn run_c13(ctx: &mut Ctx) {
 }
 
 fn replay_c13(ctx: &mut Ctx, v: &Value) {
+    if let (Some(w), Some(inp)) = (v["watched"].as_str(), v["inputs"].as_array()) {
+        let inputs: Vec<String> = inp.iter().filter_map(|x| x.as_str().map(String::from)).collect();
+        check_c13_requested(ctx, &crate::util::files_from_json(&v["files"]), &inputs, w);
+        return;
+    }
     if v["kind"].as_str() == Some("cli") {
         println!("CLI case: run `txtpp -q e.txt` and `txtpp -q -n e.txt` on a source `one\\ntwo\\n`");
         return;
@@ -508,6 +569,37 @@ fn check_escape(ctx: &mut Ctx, lines: &[String], crlf: bool, trailing: bool, wit
     }
 }
 
+/// write output stored in a tag is inert as well: when it is injected, a tag name it contains is
+/// not substituted again, and the later tag is still substituted at its own place
+fn check_two_tags(ctx: &mut Ctx, crlf: bool, trailing: bool, middle: &str) {
+    let src_lines: Vec<String> = vec![
+        "// TXTPP#tag T1".into(),
+        format!("// TXTPP#write <{middle} T2 {middle}>"),
+        "".into(),
+        "// TXTPP#tag T2".into(),
+        "// TXTPP#write second".into(),
+        "".into(),
+        "use T1 then T2.".into(),
+    ];
+    let src = join_lines(&src_lines, crlf, true);
+    let mut files = Files::new();
+    files.insert("t.txt.txtpp".into(), src.clone().into_bytes());
+    let mut case = ProjectCase::simple(files);
+    case.trailing = trailing;
+    let res = run_project(ctx, &case);
+    ctx.count("two_tag_cases", 1);
+    let le = if crlf { "\r\n" } else { "\n" };
+    let want = expected_passthrough(&["".to_string(), "".to_string(), format!("use <{middle} T2 {middle}> then second.")], le, trailing);
+    let got = res.after.files.get("t.txt").map(|e| e.bytes.clone()).unwrap_or_default();
+    let cj = json!({"kind": "two-tags", "crlf": crlf, "trailing": trailing, "middle": middle});
+    if !res.outcome.verdict.is_ok() {
+        ctx.violation("C16:two-tags:build-failed", format!("{}\nsource {src:?}", res.outcome.verdict.short()), cj);
+    } else if got != want {
+        ctx.violation("C16:two-tags:written-text-rescanned", format!("got {} expected {}", show(&got), show(&want)), cj);
+    }
+    ctx.distinct.insert(hash_str(&format!("two{src}{trailing}")));
+}
+
 fn check_mixed(ctx: &mut Ctx, seed: u64) {
     // ordinary lines in order and unmodified inside directive-bearing sources: the model comparison
     let mut r = StdRng::seed_from_u64(seed);
@@ -560,6 +652,10 @@ fn run_c16(ctx: &mut Ctx) {
             }
             _ => check_mixed(ctx, r.gen()),
         }
+        if i % 50 == 0 {
+            let middle = ["", "TXTPP#run echo x", "T1", "\u{e9}"][r.gen_range(0..4)];
+            check_two_tags(ctx, crlf, trailing, middle);
+        }
     }
 }
 
@@ -569,6 +665,7 @@ fn replay_c16(ctx: &mut Ctx, v: &Value) {
         Some("identity") => check_identity(ctx, &lines, v["crlf"].as_bool().unwrap_or(false), v["final_nl"].as_bool().unwrap_or(true), v["trailing"].as_bool().unwrap_or(true)),
         Some("escape") => check_escape(ctx, &lines, v["crlf"].as_bool().unwrap_or(false), v["trailing"].as_bool().unwrap_or(true), v["with_tag"].as_str()),
         Some("mixed") => check_mixed(ctx, v["seed"].as_u64().unwrap_or(0)),
+        Some("two-tags") => check_two_tags(ctx, v["crlf"].as_bool().unwrap_or(false), v["trailing"].as_bool().unwrap_or(true), v["middle"].as_str().unwrap_or("")),
         _ => {}
     }
 }
